@@ -49,7 +49,7 @@ class C12(core.Check):
     chunk = 1500
     crosscheck_every = {'quick': 60, 'thorough': 60}
     required_buckets = {b: 3 for b in [
-        'kind:numeric_bytecode', 'kind:relative_address', 'kind:numeric_enumeration', 'kind:address', 'kind:valid_address',
+        'kind:numeric_bytecode', 'kind:relative_address', 'kind:numeric_enumeration', 'numeric-enumeration:negative-member', 'kind:address', 'kind:valid_address',
         'kind:sliced-address', 'kind:width/numeric-arg', 'kind:width/numeric_bytecode', 'kind:width/indirect-offset',
         'kind:width/relative-offset', 'pos:min-1', 'pos:min', 'pos:max', 'pos:max+1', 'pos:start-1', 'pos:start', 'pos:end',
         'pos:end+1', 'pos:member', 'pos:neighbour', 'pos:negative', 'pos:umax', 'pos:umax+1', 'pos:smin', 'pos:smin-1',
@@ -190,7 +190,7 @@ class C12(core.Check):
                                    ['kind:relative_address', 'kind:relative_address/one-bound-only', 'pos:' + pos,
                                     'rel:from-' + ('end' if from_end else 'start')])
         # numeric_enumeration membership
-        for members in ([1, 2, 4, 8], [0, 3], [5, 6, 7, 31]):
+        for members in ([1, 2, 4, 8], [0, 3], [5, 6, 7, 31], [-2, -1, 0, 1, 2], [-100, 5]):
             bd = {m: i for i, m in enumerate(members)}
             for where in ('bytecode', 'argument'):
                 conf = {'type': 'numeric_enumeration'}
@@ -198,10 +198,11 @@ class C12(core.Check):
                     conf['bytecode'] = {'size': 3, 'value_dict': dict(bd)}
                 else:
                     conf['argument'] = {'size': 8, 'byte_align': True, 'value_dict': dict(bd)}
-                cands = set(members) | {m + 1 for m in members} | {m - 1 for m in members} | {-1, -members[0] - 1, 100}
+                cands = set(members) | {m + 1 for m in members} | {m - 1 for m in members} | {-1, -abs(members[0]) - 1, 100}
                 for v in sorted(cands):
                     pos = 'member' if v in members else ('negative' if v < 0 else 'neighbour')
-                    yield self.one(conf, lit(v), {'id': 'o', 'val': v}, 0, ['kind:numeric_enumeration', 'pos:' + pos])
+                    yield self.one(conf, lit(v), {'id': 'o', 'val': v}, 0, ['kind:numeric_enumeration', 'pos:' + pos] +
+                                   (['numeric-enumeration:negative-member'] if v < 0 and v in members else []))
                     if v >= 0:
                         # the same value written as an expression with each operator (membership is about the value)
                         forms = [f'{v}*1', f'{2 * v}/2', f'{v}<<0', f'{4 * v}>>2', f'{v}&$FFFF', f'{v}|0', f'{v}^0', f'({v})', f'{v + 3}-3', f'1+{v}-1',
